@@ -98,6 +98,30 @@ type renderer struct {
 	ctxN  string
 	cffN  string
 	needs map[string]bool
+	// bare-identifier arguments (Features.IdentArg)
+	elig     int             // eligible arguments seen so far
+	eligN    int             // total number of eligible arguments (second pass)
+	identDcl strings.Builder // declarations of identifier arguments
+}
+
+// ident marks expression e as an eligible argument; the chosen one is passed
+// as a bare identifier declared before the directive.
+func (r *renderer) ident(e string) string {
+	k := r.elig
+	r.elig++
+	name := r.p.F.IdentArg
+	if name == "" {
+		return e
+	}
+	want := r.p.F.IdentPos
+	if want < 0 {
+		want = r.eligN - 1
+	}
+	if k != want {
+		return e
+	}
+	fmt.Fprintf(&r.identDcl, "\t%s := %s\n", name, e)
+	return name
 }
 
 func (r *renderer) tr(e string) string {
@@ -183,7 +207,7 @@ func (r *renderer) emitterOpts(em string) []string {
 	e := func(i int) string { return fmt.Sprintf("in.Emit[%d].(%s.Emitter)", i, r.cffN) }
 	switch em {
 	case "1":
-		return []string{r.cffN + ".WithEmitter(" + r.tr(e(0)) + ")"}
+		return []string{r.cffN + ".WithEmitter(" + r.tr(r.ident(e(0))) + ")"}
 	case "2":
 		return []string{r.cffN + ".WithEmitter(" + r.tr(e(0)) + ")", r.cffN + ".WithEmitter(" + r.tr(e(1)) + ")"}
 	case "stack":
@@ -229,7 +253,7 @@ func (r *renderer) flowCall(decl *strings.Builder) string {
 						h += "+" + sh
 					}
 				}
-				vs = append(vs, r.tr(MkExpr(f.Types[ti], ti, h)))
+				vs = append(vs, r.tr(r.ident(MkExpr(f.Types[ti], ti, h))))
 			}
 			opts = append(opts, c+".Params("+strings.Join(vs, ", ")+")")
 		case tok == "R":
@@ -245,7 +269,7 @@ func (r *renderer) flowCall(decl *strings.Builder) string {
 		case tok == "C":
 			switch f.Conc {
 			case "expr":
-				opts = append(opts, c+".Concurrency("+r.tr("in.N")+")")
+				opts = append(opts, c+".Concurrency("+r.tr(r.ident("in.N"))+")")
 			default:
 				opts = append(opts, c+".Concurrency("+r.tr(f.Conc)+")")
 			}
@@ -356,7 +380,7 @@ func (r *renderer) parCall(decl *strings.Builder) string {
 			for _, sh := range p.F.Shadow {
 				n += "+int(" + sh + ")"
 			}
-			opts = append(opts, c+".Concurrency("+r.tr(n)+")")
+			opts = append(opts, c+".Concurrency("+r.tr(r.ident(n))+")")
 		} else {
 			opts = append(opts, c+".Concurrency("+r.tr(par.Conc)+")")
 		}
@@ -365,7 +389,7 @@ func (r *renderer) parCall(decl *strings.Builder) string {
 	case "true", "false":
 		opts = append(opts, c+".ContinueOnError("+r.tr(par.COE)+")")
 	case "expr":
-		opts = append(opts, c+".ContinueOnError("+r.tr("in.COE")+")")
+		opts = append(opts, c+".ContinueOnError("+r.tr(r.ident("in.COE"))+")")
 	}
 	opts = append(opts, r.emitterOpts(par.Emitters)...)
 	if par.Instrument {
@@ -399,7 +423,7 @@ func (r *renderer) parCall(decl *strings.Builder) string {
 			if it.Named {
 				coll = fmt.Sprintf("BS%d(%s)", ti, coll)
 			}
-			args := []string{r.tr(r.simpleFn(id, it.Ctx, it.Err, ep, ea)), r.tr(coll)}
+			args := []string{r.tr(r.simpleFn(id, it.Ctx, it.Err, ep, ea)), r.tr(r.ident(coll))}
 			if it.End != nil {
 				args = append(args, c+".SliceEnd("+r.tr(r.simpleFn(EndID(p.ID, k), it.End.Ctx, it.End.Err, nil, nil))+")")
 			}
@@ -412,7 +436,7 @@ func (r *renderer) parCall(decl *strings.Builder) string {
 			if it.Named {
 				coll = fmt.Sprintf("BM%d(%s)", ti, coll)
 			}
-			args := []string{r.tr(r.simpleFn(id, it.Ctx, it.Err, ep, ea)), r.tr(coll)}
+			args := []string{r.tr(r.simpleFn(id, it.Ctx, it.Err, ep, ea)), r.tr(r.ident(coll))}
 			if it.End != nil {
 				args = append(args, c+".MapEnd("+r.tr(r.simpleFn(EndID(p.ID, k), it.End.Ctx, it.End.Err, nil, nil))+")")
 			}
@@ -440,6 +464,20 @@ func Render(p *Program, pkg, modPath string) string {
 	if p.F.CffAlias != "" {
 		r.cffN = p.F.CffAlias
 	}
+	if p.F.IdentArg != "" && p.F.IdentPos < 0 {
+		// first pass: count the eligible arguments
+		q := &renderer{p: p, ctxN: r.ctxN, cffN: r.cffN, needs: map[string]bool{}}
+		pp := *p
+		pp.F.IdentArg = ""
+		q.p = &pp
+		var d strings.Builder
+		if p.Flow != nil {
+			q.flowCall(&d)
+		} else {
+			q.parCall(&d)
+		}
+		r.eligN = q.elig
+	}
 	var decl strings.Builder
 	var call string
 	if p.Flow != nil {
@@ -447,6 +485,7 @@ func Render(p *Program, pkg, modPath string) string {
 	} else {
 		call = r.parCall(&decl)
 	}
+	decl.WriteString(r.identDcl.String())
 	var b strings.Builder
 	b.WriteString("//go:build cff\n// +build cff\n\npackage " + pkg + "\n\nimport (\n")
 	if r.needs["context"] {
@@ -499,6 +538,12 @@ func Render(p *Program, pkg, modPath string) string {
 		for _, s := range p.F.Shadow {
 			fmt.Fprintf(b, "\t%s := uint64(0)\n\t_ = %s\n", s, s)
 		}
+	}
+	for i := 0; i < p.F.Pad; i++ {
+		fmt.Fprintf(&b, "// filler line %d\n", i)
+	}
+	if p.F.Pad > 0 {
+		b.WriteString("\n")
 	}
 	fmt.Fprintf(&b, "func run_%s(in *probe.In) *probe.Out {\n\tout := &probe.Out{}\n", p.ID)
 	if p.F.Surround {
